@@ -16,7 +16,7 @@ open VgiVerif.Engine VgiVerif.C10 VgiVerif.C10.HttpM
 def emitStep (i : Nat) : Step := ⟨[], .emit ⟨i, 1, []⟩, []⟩
 def prog : Prog := ⟨[], [emitStep 1, emitStep 2, emitStep 3]⟩
 def method : Method := ⟨prog, none, [], none⟩
-def cfg (chk : Bool) : Cfg := ⟨⟨fun _ _ _ => none⟩, fun _ => true, chk⟩
+def cfg (chk : Bool) : Cfg := { env := ⟨fun _ _ _ => none⟩, brk := fun _ => true, chk := chk }
 def ops : List Op := [.next, .next, .cancel, .next]
 
 def slogAfter (chk : Bool) : List SEv :=
@@ -28,12 +28,37 @@ def slogAfter (chk : Bool) : List SEv :=
 theorem witness_unfixed :
     slogAfter false = [.process 0 [], .process 1 [], .onCancel 1, .process 2 []] := by
   simp [slogAfter, openS, method, initBody, prog, Prog.isProducer, sinkLogs, logItems, Http.turn, processStep, emitStep, cfg,
-    Http.parseInit, session, turnLog, ops, run, step, next, afterPending, afterPendingEnd, pull, fuel, serve, cancel]
+    Http.parseInit, session, turnLog, ops, run, step, next, afterPending, afterPendingEnd, pull, fuel, serve, cancel,
+    post, rep]
 
 /-- as repaired: nothing follows `on_cancel` -/
 theorem witness_fixed :
     slogAfter true = [.process 0 [], .process 1 [], .onCancel 1] := by
   simp [slogAfter, openS, method, initBody, prog, Prog.isProducer, sinkLogs, logItems, Http.turn, processStep, emitStep, cfg,
-    Http.parseInit, session, turnLog, ops, run, step, next, afterPending, afterPendingEnd, pull, fuel, serve, cancel]
+    Http.parseInit, session, turnLog, ops, run, step, next, afterPending, afterPendingEnd, pull, fuel, serve, cancel,
+    post, rep]
+
+/-! ### second seeded variant: `cancel()` sent through `_post_with_retry`
+
+Same program; ops: next, cancel.  The network loses the answer to the cancel request (POST number 1; `/init` is number 0)
+after the server served it; the client has a retry budget of one.  With a bare POST the hook runs once; with the retried
+POST the stateless server serves the cancel request twice and `on_cancel` runs twice. -/
+
+def lossy (retryCancel : Bool) : Cfg :=
+  { env := ⟨fun _ _ _ => none⟩, brk := fun _ => true, chk := true, lost := fun r => r == 1, retries := some 1,
+    retryCancel := retryCancel }
+
+def slogCancel (retryCancel : Bool) : List SEv :=
+  match openS (lossy retryCancel) method with
+  | (_, some s0) => (run (lossy retryCancel) prog s0 [.next, .cancel]).1.slog
+  | _ => []
+
+theorem witness_cancel_retried : slogCancel true = [.process 0 [], .onCancel 1, .onCancel 1] := by
+  simp [slogCancel, openS, method, initBody, prog, Prog.isProducer, sinkLogs, logItems, Http.turn, processStep, emitStep,
+    lossy, Http.parseInit, session, turnLog, run, step, next, afterPending, cancel, post, rep, attempts]
+
+theorem witness_cancel_bare : slogCancel false = [.process 0 [], .onCancel 1] := by
+  simp [slogCancel, openS, method, initBody, prog, Prog.isProducer, sinkLogs, logItems, Http.turn, processStep, emitStep,
+    lossy, Http.parseInit, session, turnLog, run, step, next, afterPending, cancel, post, rep, attempts]
 
 end VgiVerif.C10.Findings
